@@ -5,7 +5,62 @@ from common import Check, assert_repo_import, eval_cases, eval_one, canon_tree, 
 import lang_common as LC
 import progen
 
-IMPORTS = "Base Token TokEngine Lex Headers Blocks Pairing Fold ScanFile"
+IMPORTS = "Base Token TokEngine Lex Headers Blocks Pairing Fold ScanFile Spec HeaderSpec SpecCheck LexShapes SpecCheckAll"
+LEXICAL = ("C", "Cpp", "CSharp", "Java", "JavaScript", "TypeScript")   # brace languages: Scope/HeaderSpec.v, LexShapes.v
+
+
+def groups_end(code, p):
+    """end of the maximal run of balanced parenthesis groups starting at p (None when no "(" there)"""
+    if p >= len(code) or code[p].value != "(":
+        return None
+    j, depth = p, 0
+    while j < len(code):
+        v = code[j].value
+        if depth > 0:
+            depth += 1 if v == "(" else -1 if v == ")" else 0
+        elif v == "(":
+            depth = 1
+        else:
+            break
+        j += 1
+    return j
+
+
+def descs_brace(lang, code, expected):
+    """function descriptors (token indices into the code tokens) of the generator's functions, for the hypotheses of
+    the C01 theorems, derived from the expected start / end positions and the documented header shapes only"""
+    pos = {(t.location.line, t.location.column): i for i, t in enumerate(code)}
+    endpos = {(t.location.line, t.location.column + len(t.value)): i for i, t in enumerate(code) if "\n" not in t.value}
+    ds = []
+    for e in expected:
+        s = pos.get(tuple(e["start"]))
+        c = endpos.get(tuple(e["end"]))
+        if s is None or c is None:
+            return None
+        val = lambda k: code[k].value if k < len(code) else None
+        if lang in ("JavaScript", "TypeScript") and val(s) == "function":
+            n, hend = s + 1, groups_end(code, s + 2)
+        elif lang in ("JavaScript", "TypeScript") and (val(s) == "const" or val(s + 1) == "="):
+            n = s + 1 if val(s) == "const" else s
+            p = n + 3 if val(n + 2) == "async" else n + 2
+            j = groups_end(code, p)
+            hend = None if j is None else j + 1            # past the "=>"
+        else:
+            n, hend = s, groups_end(code, s + 1)
+        if hend is None:
+            return None
+        o = hend
+        while o < len(code) and code[o].value != "{":
+            o += 1
+        ds.append((n, s, hend, o, c))
+    return ds
+
+
+def spec_expr(li, toklit, ds):
+    dl = "[" + "; ".join(f"mkFd {a} {b} {c} {d} {e}" for a, b, c, d, e in ds) + "]"
+    return (f"(let code := filter_tokens false {toklit} in let ds := {dl} in "
+            f"T [enc_bool (wf_descs_b code ds); enc_bool (lexically_canonical_of_b (lang_code {li}) code ds); "
+            "enc_scan (expected_all code ds ds)])")
 
 
 def _work(args):
@@ -39,15 +94,18 @@ def _work(args):
                 probs.append(f"order / multiplicity differs: {[g[0] for g in r[1]]} vs {[e[0] for e in exp]}")
         toks = LC.impl_lex(lang, text) if len(text) < 6000 else None
         nontrivial = len(exp) >= 1 and (len(exp) >= 2 or len(p["features"]) >= 3)
+        ds = None
+        if toks is not None and lang in LEXICAL and exp:
+            ds = descs_brace(lang, LC.impl_lex(lang, text, keep_comments=False), p["expected"])
         out.append((seed, r, probs, nontrivial, p["features"], len(exp),
-                    LC.tokens_lit(toks) if toks is not None else None, text if probs else None))
+                    LC.tokens_lit(toks) if toks is not None else None, text if probs else None, ds, exp))
     return lang, out
 
 
 def run(tier, seed, replay=None):
     assert_repo_import()
     chk = Check("C01", tier, seed)
-    model_ok = chk.proof_stage(["Scope/ScanFile.vo", "Scope/SpecProofs.vo"])
+    model_ok = chk.proof_stage(["Scope/ScanFile.vo", "Scope/SpecProofs.vo", "Scope/SpecCheck.vo", "Scope/HeaderProofs.vo", "Scope/ShapeProofs.vo", "Scope/SpecCheckAll.vo"])
     n_prog = 400 if tier == "quick" else 12000
     base = seed * 1000003
     jobs = []
@@ -60,11 +118,12 @@ def run(tier, seed, replay=None):
         for k in range(0, len(small), 50):
             jobs.append((lang, small[k:k + 50], {"long_bodies": False}))
     model_cases = []
+    spec_cases = []
     budget = {lang: (40 if tier == "quick" else 300) for lang in LC.LANGS}
     with mp.Pool(NPROC) as pool:
         for lang, res in pool.imap_unordered(_work, jobs):
             li = LC.LANGS.index(lang)
-            for sd, r, probs, nontrivial, feats, nf, toklit, text in res:
+            for sd, r, probs, nontrivial, feats, nf, toklit, text, ds, exp in res:
                 case = {"language": lang, "generator_seed": sd}
                 chk.evaluations += 1
                 if nontrivial:
@@ -78,6 +137,10 @@ def run(tier, seed, replay=None):
                 if toklit is not None and budget[lang] > 0 and nf >= 1:
                     budget[lang] -= 1
                     model_cases.append((f"enc_scan (scan_file (lang_code {li}) {toklit})", r, case))
+                    if ds is not None:
+                        # the hypotheses of C01_brace / C01_flat, decided inside Coq for this program, and
+                        # the theorem's right-hand side against the generator's expectation
+                        spec_cases.append((spec_expr(li, toklit, ds), [1, 1, [0, exp]], case))
     chk.samples = [c for _, _, c in model_cases[:3]]
     if model_ok:
         mism, err = eval_cases("C01", IMPORTS, [(m, o) for m, o, _ in model_cases], shard=20)
@@ -88,6 +151,15 @@ def run(tier, seed, replay=None):
             got = eval_one("C01", IMPORTS, model_cases[i][0])
             chk.broken.append(f"correspondence: scan_file model and implementation differ on {model_cases[i][2]}: "
                               f"model {got} vs implementation {canon_tree(model_cases[i][1])}")
+        mism, err = eval_cases("C01s", IMPORTS, [(m, o) for m, o, _ in spec_cases], shard=8)
+        chk.count("programs whose theorem hypotheses (wf_descs, lexically_canonical) were decided in Coq", len(spec_cases))
+        if err:
+            chk.broken.append("specification evaluation failed: " + err[-400:])
+        for i in mism[:5]:
+            got = eval_one("C01s", IMPORTS, spec_cases[i][0])
+            chk.broken.append(f"specification: on {spec_cases[i][2]} the hypotheses of the C01 theorem do not hold or its "
+                              f"right-hand side differs from the generator's expectation: [wf_descs, lexically_canonical, "
+                              f"expected_all] = {str(got)[:300]} vs {str(canon_tree(spec_cases[i][1]))[:300]}")
     else:
         chk.broken.append("scope model does not build; correspondence not run")
     nt = len(chk.nontrivial)
